@@ -58,7 +58,14 @@ def _mk_ev(tag):
 
 
 class SwitchRun:
-    def __init__(self, sched, unit, prod=False):
+    def __init__(self, sched, unit, prod=False, shared=False):
+        # shared: registrations on one switch use ONE callable (as devices do that register the same method for both
+        # states / several hold times); which registration fired is told from the switch state and the time since its
+        # last change.  Registrations whose (state, ms) is already taken by the shared callable get a callable of their own.
+        self.shared = shared
+        self.shcb = {}
+        self.in_report = False
+        self.changed_at = {}
         self.h = _machine(prod)
         self.m = self.h.machine
         self.sc = self.m.switch_controller
@@ -93,8 +100,32 @@ class SwitchRun:
             q[s] = [bool(self.sc.is_active(sw)), bool(self.sc.is_active(sw, ms=two)), bool(self.sc.is_inactive(sw, ms=two))]
         return q
 
+    def shared_cb(self, sw):
+        if sw not in self.shcb:
+            def cb():
+                st = int(self.m.switches[sw].state)
+                now = self.m.clock.get_time()
+                cands = [(hid, k) for hid, k in self.keys.items() if k[0] == sw and k[1] is cb and k[2] == st]
+                if self.in_report:
+                    cands = [(hid, k) for hid, k in cands if k[3] == 0]
+                else:
+                    since = (now - self.changed_at.get(sw, -1e9)) * 1000.0
+                    cands = [(hid, k) for hid, k in cands if k[3] > 0 and abs(since - k[3]) < 0.5 * self.U]
+                if len(cands) != 1:
+                    self.ev.append({'op': 'crash', 'what': 'shared callable of %s called, %d registrations match' % (sw, len(cands))})
+                    return
+                hid, k = cands[0]
+                self.fire(hid, k[3] > 0, k[4])
+            self.shcb[sw] = cb
+        return self.shcb[sw]
+
     def mk_cb(self, hid, timed, rid):
         def cb():
+            self.fire(hid, timed, rid)
+        return cb
+
+    def fire(self, hid, timed, rid):
+        if True:
             if timed:
                 # the schedule may let this callback remove another handler on the spot
                 rm = ''
@@ -125,7 +156,6 @@ class SwitchRun:
                 self.consumed.add(j)
                 self.do(self.sched[j])
                 j += 1
-        return cb
 
     def do(self, s):
         op = s['op']
@@ -134,8 +164,11 @@ class SwitchRun:
                 return
             self.gen[s['id']] = self.gen.get(s['id'], 0) + 1
             rid = '%s_%d' % (s['id'], self.gen[s['id']])
-            cb = self.mk_cb(s['id'], s['ms'] > 0, rid)
             ms = s['ms'] * self.U
+            cb = self.mk_cb(s['id'], s['ms'] > 0, rid)
+            if self.shared and not any(k[0] == s['sw'] and k[1] is self.shcb.get(s['sw']) and k[2] == s['state'] and k[3] == ms
+                                       for k in self.keys.values()):
+                cb = self.shared_cb(s['sw'])
             self.sc.add_switch_handler(s['sw'], cb, state=s['state'], ms=ms)
             self.keys[s['id']] = (s['sw'], cb, s['state'], ms, rid)
             self.ev.append({'op': 'add', 'id': rid, 'sw': s['sw'], 'state': s['state'], 'ms': s['ms'],
@@ -148,10 +181,19 @@ class SwitchRun:
             self.ev.append({'op': 'remove', 'id': rid, 'nested': bool(s.get('nested'))})
         elif op == 'report':
             self.ev.append({'op': 'report', 'sw': s['sw'], 'v': s['v'], 'logical': bool(s['logical'])})
-            if s['logical']:
-                self.sc.process_switch(s['sw'], s['v'], logical=True)
-            else:
-                self.sc.process_switch_by_num(NUM[s['sw']], s['v'], self.m.switches[s['sw']].platform, logical=False)
+            before = int(self.m.switches[s['sw']].state)
+            self.in_report = True
+            # (a handler called during the report may ask for the time of this change)
+            self.changed_at_prev = self.changed_at.get(s['sw'])
+            try:
+                if s['logical']:
+                    self.sc.process_switch(s['sw'], s['v'], logical=True)
+                else:
+                    self.sc.process_switch_by_num(NUM[s['sw']], s['v'], self.m.switches[s['sw']].platform, logical=False)
+            finally:
+                self.in_report = False
+            if int(self.m.switches[s['sw']].state) != before:
+                self.changed_at[s['sw']] = self.m.clock.get_time()
             st, hw = self.obs()
             self.ev.append({'op': 'endreport', 'st': st, 'hw': hw})
         else:
@@ -209,8 +251,9 @@ class SwitchRun:
 def exec_schedule(job):
     sched, unit = job[0], job[1]
     prod = bool(job[2]) if len(job) > 2 else False
+    shared = bool(job[3]) if len(job) > 3 else False
     try:
-        return {'ev': SwitchRun(sched, unit, prod).run(), '_unit': unit, '_prod': prod}
+        return {'ev': SwitchRun(sched, unit, prod, shared).run(), '_unit': unit, '_prod': prod, '_shared': shared}
     except Exception as ex:  # pylint: disable=broad-except
         import traceback
         _H['sink'][0] = None
@@ -264,8 +307,8 @@ def run(ctx):
                     .replace('PROPERTY DuplicateInert\n', '').replace('PROPERTY RemovedNeverFires\n', ''))
         behs, _ = tlc.simulate(wd, 'SwitchesMC', 'Gen.cfg', num=per_unit, depth=30 if ctx.quick else 44,
                                seed=ctx.seed + u)
-        jobs = [([s['act'] for s in b], u, k % 3 == 0) for k, b in enumerate(behs)]
-        jobs += [(s, u, False) for s in handmade(u)] + [(s, u, True) for s in handmade(u)]
+        jobs = [([s['act'] for s in b], u, k % 3 == 0, k % 2 == 1) for k, b in enumerate(behs)]
+        jobs += [(s, u, False, False) for s in handmade(u)] + [(s, u, True, True) for s in handmade(u)]
         traces = harness.pmap(exec_schedule, jobs, chunk=8)
         with open(wd + '/Trace.cfg', 'w') as f:
             f.write(cfg_text('TSpec', hu, 10 ** 6, 10 ** 6, TRACE_HIDS, '{}', trace=True))
@@ -284,7 +327,7 @@ def run(ctx):
                 continue
             sig = 'C03:%s:%s-after-%s' % (info.get('monitor') or 'step', fe.get('op', 'end'), pe.get('op', 'start'))
             ctx.violation(sig, 'switch controller execution not explained by Switches spec (unit %dms) at line %s: %s (prev %s)'
-                          % (u, info.get('line'), fe, pe), {'job': [jobs[i][0], u, jobs[i][2]], 'trace': traces[i], 'info': info})
+                          % (u, info.get('line'), fe, pe), {'job': [jobs[i][0], u, jobs[i][2], jobs[i][3]], 'trace': traces[i], 'info': info})
     ctx.assumptions += ['virtual time; one report at a time (no report from inside a switch handler)',
                         'ignore_window_ms (recycle) switches are not part of this model']
 
